@@ -15,7 +15,12 @@ import (
 	"verifharness/vh"
 )
 
-const big = "12345678901234567890.0123456789"
+// number literals: the abstract tokens "1" (a number) and "9" (a number beyond float64 / int64) are concretised by spellings that
+// rotate with the document, so that every way of writing a number meets every document shape; the requirement is that the
+// literal comes back character by character
+var numLits = []string{"1", "1.0", "1e3", "-0", "0.10", "1E+2", "-12.50", "100000000000000000000"}
+var bigLits = []string{"12345678901234567890.0123456789", "18446744073709551615", "-9223372036854775809", "1e400", "0.1000000000000000055511151231257827"}
+var num, big = numLits[0], bigLits[0]
 
 type rowT struct {
 	ID  int             `json:"id"`
@@ -35,7 +40,7 @@ type obsT struct {
 func render(d map[string]interface{}) string {
 	switch d["k"] {
 	case "num":
-		return "1"
+		return num
 	case "big":
 		return big
 	case "lit":
@@ -78,6 +83,9 @@ func tokens(s string) []string {
 		case strings.HasPrefix(s[i:], big):
 			out = append(out, "9")
 			i += len(big)
+		case strings.HasPrefix(s[i:], num) && (i+len(num) == len(s) || strings.IndexByte(",]}", s[i+len(num)]) >= 0) && (i == 0 || strings.IndexByte(":,[", s[i-1]) >= 0):
+			out = append(out, "1")
+			i += len(num)
 		case strings.HasPrefix(s[i:], "true"):
 			out = append(out, "t")
 			i += 4
@@ -87,6 +95,10 @@ func tokens(s string) []string {
 		case strings.HasPrefix(s[i:], `\"`):
 			out = append(out, "q")
 			i += 2
+		case strings.IndexByte("0123456789+-.eE", s[i]) >= 0:
+			// part of a number that is not the literal the document was written with
+			out = append(out, "digit:"+s[i:i+1])
+			i++
 		default:
 			out = append(out, s[i:i+1])
 			i++
@@ -114,6 +126,7 @@ func main() {
 		if err := json.Unmarshal(r.Doc, &d); err != nil {
 			return err
 		}
+		num, big = numLits[r.ID%len(numLits)], bigLits[(r.ID/len(numLits))%len(bigLits)]
 		o := obsT{ID: r.ID, Doc: r.Doc, Text: render(d), Wire: []string{}, Back: []string{}}
 		wire, werr := ship.JsonIntoEEBUSJson([]byte(o.Text))
 		if werr != nil {
